@@ -34,7 +34,8 @@ META = {
             "reference mass from the patch its scale lies in (3 + thresholds below Qm) to the wall of the patch adjoining its own "
             "threshold on the side of the coupling reference, solves there with that patch's nf, and builds each coupling from "
             "the masses found so far."
-            " Instances with the reference scale on a matching scale (empty first segment, decoupling still applied) are included.",
+            " Instances with the reference scale on a matching scale (empty first segment, decoupling still applied) are included."
+            " runcards.masses asked for xif = 1, 2, 1/2, 1 in one evaluator (recording fixed-point solver): every answer comes from a computation with the xif of that call.",
     "note": "Level 'other': the root itself is not decided; two known findings in the decoupling step.",
     "technique": "array-shape lint at the fsolve call site; partial evaluation with mocked quadrature/coupling + series valuation; RG derivation with sympy; truth table by exhaustive PE",
     "engine": "sa",
@@ -352,6 +353,7 @@ def run(chk):
     XIF2_GUARD[0] = Fraction(1)
     _patches(chk, src)
     _coupling_consistency(chk, src)
+    _second_request(chk, src)
     chk.note(decoupling_cases=n_dec, files=["src/eko/msbar_masses.py", "src/eko/couplings.py"])
     chk.explanation = "fsolve lint; kernels by PE + series; decoupling by PE with symbolic coupling; RG-derived logs; guard truth table."
 
@@ -590,6 +592,53 @@ def _fmt(c):
         return "missing"
     names = {"evolve": ("m2", "Qm2", "to", "nf_from", "nf_to", "coupling masses"), "solve": ("m2", "Q2", "nf", "coupling masses")}[c[0]]
     return c[0] + "(" + ", ".join(f"{k}={'(' + ','.join(map(str, v)) + ')' if isinstance(v, tuple) else v}" for k, v in zip(names, c[1:])) + ")"
+
+
+def _second_request(chk, src):
+    """runcards.masses asked several times in ONE process (a scan over the scale ratio on one card, or the atlas and the couplings of
+    one run): every answer comes from a fixed-point computation with the settings of THAT call.  msbar_masses.compute is a recording
+    stand-in; the cards share their heavy-quark and coupling sections (the same objects), only xif differs."""
+    from ..pe import Opaque, named_arguments
+
+    fm = src.func("eko.io.runcards.masses")
+    pe = PE(src)
+    rec = []
+
+    def compute(p_, a, k):
+        rec.append(named_arguments(k))
+        return Arr.from_nested([dag.sym(f"m{len(rec)}_{i}") for i in range(3)])
+
+    pe.overrides[f"{MM}.compute"] = compute
+    schemes = pe.enum_members(src.cls("eko.quantities.heavy_quarks.QuarkMassScheme"))
+    heavy = Opaque()
+    heavy.masses = "MASSES"
+    heavy.masses_scheme = schemes["MSBAR"]
+    heavy.matching_ratios = Arr.from_nested([Fraction(1), Fraction(1), Fraction(1)])
+    evm = pe.enum_members(src.cls("eko.io.types.EvolutionMethod"))["ITERATE_EXACT"]
+    bad = None
+    n = 0
+    for xif in (Fraction(1), Fraction(2), Fraction(1, 2), Fraction(1)):
+        th = Opaque()
+        th.heavy, th.couplings, th.order, th.xif = heavy, "COUPLINGS", (2, 0), xif
+        before = len(rec)
+        try:
+            out = pe.call(fm.qname, [th, evm])
+        except PERaise as e:
+            bad = bad or (xif, f"raises {e}")
+            continue
+        n += 1
+        vals = list(out.flat()) if isinstance(out, Arr) else list(out)
+        # the answer must be what a computation with THIS xif returns: either computed now, or by an earlier call with the same settings
+        src_calls = [i for i, c in enumerate(rec) if dag.as_const(dag.tonode(c.get("xif2"))) == xif ** 2]
+        ok = any(all(v is dag.sym(f"m{i + 1}_{j}") for j, v in enumerate(vals)) for i in src_calls) and len(vals) == 3
+        if not ok and bad is None:
+            bad = (xif, f"returns {[dag.short(dag.tonode(v)) for v in vals]}; computations so far were made with xif2 = "
+                        f"{[str(dag.as_const(dag.tonode(c.get('xif2')))) for c in rec]} ({len(rec) - before} new)")
+    chk.decide(bad is None, "every-request-is-solved-with-its-own-settings", fm.qname,
+               f"runcards.masses asked for xif = 1, 2, 1/2, 1 on cards that differ in xif only: for xif = {bad[0] if bad else ''} it {bad[1] if bad else ''} - "
+               f"masses remembered from a request with another scale ratio are not fixed points m(m) = m of this one", where=fm.where,
+               instance="xif scan in one process", how="PE of several requests in one evaluator with a recording fixed-point solver")
+    chk.floor("mass requests evaluated", n, 4)
 
 
 def _coupling_consistency(chk, src):
